@@ -65,6 +65,36 @@ Proof.
   destruct (evs_time_head X Hok Hs ltac:(rewrite EX; discriminate)) as (v & E & ->). cbn [ops_of]. now rewrite ops_of_found.
 Qed.
 
+(* a prefix of events followed by a piece that starts with a time stamp line: the operations split at the seam,
+   whatever the stream state at the seam *)
+Lemma ops_of_app_piece lookup Y : Forall line_ok Y -> starts_with_time Y -> forall A first found ops,
+  ops_of lookup first found (A ++ evs Y) = Some ops ->
+  exists o1 o2, ops_of lookup first found A = Some o1 /\ ops_of lookup false true (evs Y) = Some o2 /\ ops = o1 ++ o2.
+Proof.
+  intros Hok Hs. induction A as [|e A IH]; intros first found ops H; cbn [app] in H.
+  - rewrite (ops_of_piece lookup Y first found Hok Hs) in H. exists [], ops. repeat split; assumption.
+  - destruct e as [t|v i]; cbn [ops_of] in *.
+    + destruct (ops_of lookup first true (A ++ evs Y)) as [o|] eqn:E; [|discriminate]. inversion H; subst ops.
+      destruct (IH first true o E) as (o1 & o2 & H1 & H2 & ->). rewrite H1. exists (OpTime t :: o1), o2. repeat split; assumption.
+    + destruct (found || first) eqn:Ef.
+      * destruct (lookup_id lookup i) as [n|]; [|discriminate].
+        destruct (ops_of lookup first true (A ++ evs Y)) as [o|] eqn:E; [|discriminate]. inversion H; subst ops.
+        destruct (IH first true o E) as (o1 & o2 & H1 & H2 & ->). rewrite H1. eexists. exists o2. split; [reflexivity|]. split; [exact H2|].
+        now rewrite <- app_assoc.
+      * exact (IH first false ops H).
+Qed.
+
+Definition starts_with_optime (o : list enc_op) : Prop := o = [] \/ exists t0 r, o = OpTime t0 :: r.
+
+(* the first thread's operations begin with a time stamp: a real one or the implicit time 0 *)
+Lemma first_optime lookup : forall E o, ops_of lookup true false E = Some o -> starts_with_optime o.
+Proof.
+  intros E o H. destruct E as [|e E]; [injection H as <-; now left|]. destruct e as [t|v i]; cbn [ops_of orb andb negb] in H.
+  - destruct (ops_of lookup true true E) as [o'|]; [|discriminate]. injection H as <-. right. eauto.
+  - destruct (lookup_id lookup i) as [n|]; [|discriminate]. destruct (ops_of lookup true true E) as [o'|]; [|discriminate].
+    injection H as <-. right. cbn [app]. eauto.
+Qed.
+
 (* ------------------------------------------------------------------ what each thread's VcdEncoder is fed *)
 
 Definition thread_lines (ls : list line) (c : nat * nat) : list line :=
@@ -157,20 +187,18 @@ Qed.
 
 (* Property C03 at the level of store operations: the operation lists the parser threads hand to their encoders
    concatenate to the operation list of the sequential parser *)
-Theorem ops_tile lookup ls len0 rest ops : Forall line_ok ls -> starts_with_time ls ->
+Theorem ops_tile lookup ls len0 rest ops : Forall line_ok ls ->
   contig 0 ((0%nat, len0) :: rest) -> (length (body ls) <= end_of 0 ((0%nat, len0) :: rest))%nat ->
   ops_of lookup true false (evs ls) = Some ops ->
   exists opss, Forall2 (fun c o => thread_ops lookup ls c = Some o) ((0%nat, len0) :: rest) opss /\ ops = concat opss.
 Proof.
-  intros Hok Hst (_ & Hlen & Hc) Hend Hops. cbn [end_of Nat.add] in *.
-  rewrite (ops_of_piece lookup ls true false Hok Hst) in Hops.
+  intros Hok (_ & Hlen & Hc) Hend Hops. cbn [end_of Nat.add] in *.
   pose proof (tsplit_app len0 ls 1) as Hls. pose proof (tsplit_cutabs len0 ls 1) as Hcut.
+  pose proof (tsplit_rest_time len0 ls 1) as HYt. pose proof (tsplit_ok len0 ls 1 Hok) as HYok.
   destruct (tsplit len0 1 ls) as [[b1 Y1] o1] eqn:E1. cbn [fst snd] in *.
-  rewrite Hls, evs_app in Hops. destruct (ops_of_app_found lookup _ _ false ops Hops) as (x1 & x2 & H1 & H2 & ->).
+  rewrite Hls, evs_app in Hops. destruct (ops_of_app_piece lookup Y1 HYok HYt _ _ _ ops Hops) as (x1 & x2 & H1 & H2 & ->).
   assert (Hth0 : thread_ops lookup ls (0%nat, len0) = Some x1).
-  { unfold thread_ops, thread_lines. cbn [fst Nat.eqb]. rewrite <- Hcut, <- H1. apply ops_of_piece.
-    - rewrite Hcut. now apply cutabs_ok.
-    - rewrite Hcut. now apply cutabs_starts. }
+  { unfold thread_ops, thread_lines. cbn [fst Nat.eqb]. rewrite <- Hcut. exact H1. }
   destruct rest as [|c rest'].
   - assert (HY : Y1 = []).
     { pose proof (tsplit_beyond len0 ls 1) as Hb. rewrite E1 in Hb. cbn [fst snd] in Hb. apply Hb. unfold body in Hend. cbn [length end_of] in Hend. lia. }
@@ -290,7 +318,6 @@ Proof.
   destruct a as [[g l] s]. destruct Ha as (Hg & Hrest). cbn [fst snd] in *. split; [now rewrite Hg|exact Hrest].
 Qed.
 
-Definition starts_with_optime (o : list enc_op) : Prop := o = [] \/ exists t0 r, o = OpTime t0 :: r.
 
 (* the recorded changes of a history made of pieces, each starting with a time stamp, all time stamps increasing: the
    pieces' own recordings one after the other, each shifted by the number of time stamps before it *)
@@ -327,13 +354,11 @@ Proof.
   destruct (ops_of lookup false true E) as [o'|]; [|discriminate]. injection H as <-. right. eauto.
 Qed.
 
-Lemma thread_ops_optime lookup ls s len o : Forall line_ok ls -> starts_with_time ls -> (s = 0%nat \/ (1 <= s)%nat) ->
+Lemma thread_ops_optime lookup ls s len o : Forall line_ok ls -> (s = 0%nat \/ (1 <= s)%nat) ->
   thread_ops lookup ls (s, len) = Some o -> starts_with_optime o.
 Proof.
-  intros Hok Hst [->|Hs] H.
-  - unfold thread_ops, thread_lines in H. cbn [fst Nat.eqb] in H.
-    rewrite (ops_of_piece lookup _ true false (cutabs_ok len ls 1 Hok) (cutabs_starts len ls 1 Hst)) in H.
-    exact (piece_optime lookup _ o (cutabs_ok len ls 1 Hok) (cutabs_starts len ls 1 Hst) H).
+  intros Hok [->|Hs] H.
+  - unfold thread_ops in H. cbn [fst Nat.eqb] in H. exact (first_optime lookup _ o H).
   - rewrite (later_thread_ops lookup ls s len Hok Hs) in H. eapply piece_optime; [| |exact H].
     + rewrite tsplit_cutabs. apply cutabs_ok. now apply tsplit_ok.
     + rewrite tsplit_cutabs. apply cutabs_starts. apply tsplit_rest_time.
@@ -429,12 +454,12 @@ Proof.
     destruct (chunk_ops debug tpes lookup ls s len en Hok Hl Hc) as (o & Ho & Hro); rewrite Ht in Ho; injection Ho as <-; exact Hro end.
 Qed.
 
-Lemma optime_of_chunks lookup ls : Forall line_ok ls -> starts_with_time ls -> forall l opss,
+Lemma optime_of_chunks lookup ls : Forall line_ok ls -> forall l opss,
   Forall2 (fun c o => thread_ops lookup ls c = Some o) l opss ->
   Forall (fun c : nat * nat => fst c = 0%nat \/ (1 <= fst c)%nat) l ->
   Forall starts_with_optime opss.
 Proof.
-  intros Hok Hst. induction l as [|[s len] l IH]; intros opss Hth Hall; inversion Hth; subst; [constructor|].
+  intros Hok. induction l as [|[s len] l IH]; intros opss Hth Hall; inversion Hth; subst; [constructor|].
   apply Forall_cons_iff in Hall as [Hs Hall]. cbn [fst] in Hs. constructor; [|now apply IH].
   eapply (thread_ops_optime lookup ls s len); eassumption.
 Qed.
@@ -504,7 +529,7 @@ Qed.
 
 (* what both branches do, independent of the kind of signal looked at *)
 Lemma mt_common debug tpes lookup ls len0 rest stop_st e_st encs :
-  Forall line_ok ls -> starts_with_time ls ->
+  Forall line_ok ls ->
   contig 0 ((0%nat, len0) :: rest) -> (length (body ls) <= end_of 0 ((0%nat, len0) :: rest))%nat ->
   N.of_nat (length (body ls)) <= stop_st + 1 ->
   read_single_stream parse_f64 lz_compress cap debug tpes lookup (body ls) stop_st true = Ok e_st ->
@@ -516,16 +541,16 @@ Lemma mt_common debug tpes lookup ls len0 rest stop_st e_st encs :
     Forall2 (fun o en => run_ops parse_f64 lz_compress cap (enc_new tpes) o = Ok en) opss encs /\
     Forall starts_with_optime opss.
 Proof.
-  intros Hok Hst Hcontig Hend Hstop Hrs Hchunks.
+  intros Hok Hcontig Hend Hstop Hrs Hchunks.
   unfold read_single_stream in Hrs. rewrite body_render, (parse_body_lines debug ls stop_st Hok ltac:(rewrite <- body_render; exact Hstop)) in Hrs.
   destruct (feed_events parse_f64 lz_compress cap lookup (mk_ve (enc_new tpes) true false) (flat_map events_of ls)) as [ve| |] eqn:Ef; try discriminate.
   cbn [bind] in Hrs. injection Hrs as <-.
   destruct (feed_events_ops parse_f64 lz_compress cap lookup _ _ _ _ _ Ef) as (ops & Ho & Hr). fold (evs ls) in Ho.
-  destruct (ops_tile lookup ls len0 rest ops Hok Hst Hcontig Hend Ho) as (opss & Hth & Hcat).
+  destruct (ops_tile lookup ls len0 rest ops Hok Hcontig Hend Ho) as (opss & Hth & Hcat).
   pose proof (contig_all _ _ Hcontig) as Hall.
   exists ops, opss. split; [exact Ho|]. split; [exact Hr|]. split; [exact Hcat|]. split.
   - apply (runs_of_chunks debug tpes lookup ls Hok _ opss encs Hth Hchunks). eapply Forall_impl; [|exact Hall]. intros c [H _]. exact H.
-  - apply (optime_of_chunks lookup ls Hok Hst _ opss Hth). eapply Forall_impl; [|exact Hall]. intros c [_ H]. lia.
+  - apply (optime_of_chunks lookup ls Hok _ opss Hth). eapply Forall_impl; [|exact Hall]. intros c [_ H]. lia.
 Qed.
 
 (* Property C03 for bodies written one token group per line, first line a time stamp, time stamps increasing:
@@ -533,7 +558,7 @@ Qed.
    the body), every bit-vector signal loaded from the appended per-thread stores reports exactly what it reports
    after single-threaded loading *)
 Theorem mt_equals_st debug tpes lookup ls len0 rest stop_st e_st b_st t_st encs first others e_mt b_mt t_mt id bits :
-  Forall line_ok ls -> starts_with_time ls ->
+  Forall line_ok ls ->
   contig 0 ((0%nat, len0) :: rest) -> (length (body ls) <= end_of 0 ((0%nat, len0) :: rest))%nat ->
   (1 <= bits)%nat -> nth_error tpes id = Some (EncBits bits) ->
   (* single-threaded *)
@@ -552,20 +577,20 @@ Theorem mt_equals_st debug tpes lookup ls len0 rest stop_st e_st b_st t_st encs 
     load_signal lz_decompress b_mt id (EncBits bits) = Ok s_mt /\
     observe_signal s_st = observe_signal s_mt /\ t_st = t_mt.
 Proof.
-  intros Hok Hst Hcontig Hend Hb Htp Hstop Hrs Hfs Hls Hchunks Hencs Happ Hfm Hlm Hhyp.
+  intros Hok Hcontig Hend Hb Htp Hstop Hrs Hfs Hls Hchunks Hencs Happ Hfm Hlm Hhyp.
   (* the sequential run *)
   unfold read_single_stream in Hrs. rewrite body_render, (parse_body_lines debug ls stop_st Hok ltac:(rewrite <- body_render; exact Hstop)) in Hrs.
   destruct (feed_events parse_f64 lz_compress cap lookup (mk_ve (enc_new tpes) true false) (flat_map events_of ls)) as [ve| |] eqn:Ef; try discriminate.
   cbn [bind] in Hrs. injection Hrs as <-.
   destruct (feed_events_ops parse_f64 lz_compress cap lookup _ _ _ _ _ Ef) as (ops & Ho & Hr). fold (evs ls) in Ho.
   destruct (Hhyp ops Ho) as [Hsorted Hbud].
-  destruct (ops_tile lookup ls len0 rest ops Hok Hst Hcontig Hend Ho) as (opss & Hth & Hcat).
+  destruct (ops_tile lookup ls len0 rest ops Hok Hcontig Hend Ho) as (opss & Hth & Hcat).
   (* every thread's encoder is the result of its operation list *)
   pose proof (contig_all _ _ Hcontig) as Hall.
   assert (Hruns : Forall2 (fun o en => run_ops parse_f64 lz_compress cap (enc_new tpes) o = Ok en) opss encs).
   { apply (runs_of_chunks debug tpes lookup ls Hok _ opss encs Hth Hchunks). eapply Forall_impl; [|exact Hall]. intros c [H _]. exact H. }
   assert (Hopt : Forall starts_with_optime opss).
-  { apply (optime_of_chunks lookup ls Hok Hst _ opss Hth). eapply Forall_impl; [|exact Hall]. intros c [_ H]. lia. }
+  { apply (optime_of_chunks lookup ls Hok _ opss Hth). eapply Forall_impl; [|exact Hall]. intros c [_ H]. lia. }
   assert (Hopsok : Forall (fun o => Forall (op_ok id bits) o /\ N.of_nat (count_vcd id o) * (10 + N.of_nat bits) < 4294967264) opss).
   { pose proof (opok_of_chunks lookup ls id bits _ opss Hth) as Hk. apply Forall_forall. intros o Hin. split.
     - rewrite Forall_forall in Hk. now apply Hk.
@@ -632,7 +657,7 @@ Hypothesis cap_u16 : cap <= 65536.
 
 (* Property C03 for the two branches of read_values: whatever the number of threads and the minimal chunk size *)
 Theorem read_values_mt_equals_st debug tpes lookup ls max_threads min_chunk b_st t_st b_mt t_mt id bits :
-  Forall line_ok ls -> starts_with_time ls -> (1 <= bits)%nat -> nth_error tpes id = Some (EncBits bits) ->
+  Forall line_ok ls -> (1 <= bits)%nat -> nth_error tpes id = Some (EncBits bits) ->
   read_values_st parse_f64 lz_compress cap debug tpes lookup (body ls) = Ok (b_st, t_st) -> N.of_nat (length t_st) < 4294967296 ->
   read_values_mt parse_f64 lz_compress cap debug tpes lookup (body ls) max_threads min_chunk = Ok (b_mt, t_mt) ->
   N.of_nat (length t_mt) < 4294967296 ->
@@ -643,7 +668,7 @@ Theorem read_values_mt_equals_st debug tpes lookup ls max_threads min_chunk b_st
     load_signal lz_decompress b_mt id (EncBits bits) = Ok s_mt /\
     observe_signal s_st = observe_signal s_mt /\ t_st = t_mt.
 Proof.
-  intros Hok Hst Hb Htp Hs Hls Hm Hlm Hhyp.
+  intros Hok Hb Htp Hs Hls Hm Hlm Hhyp.
   unfold read_values_st in Hs.
   destruct (read_single_stream parse_f64 lz_compress cap debug tpes lookup (body ls) _ true) as [e_st| |] eqn:Es; try discriminate. cbn [bind] in Hs.
   unfold read_values_mt in Hm. unfold body at 1 in Hm. cbn iota in Hm. fold (body ls) in Hm. unfold read_values_mt_nonempty in Hm.
@@ -664,22 +689,23 @@ End MtDriver.
 (* the hypotheses of read_values_mt_equals_st are satisfiable: three threads (chunks of 20 bytes) cut this body inside
    lines; the blocks differ from the single-threaded ones, the reports agree *)
 Example read_values_mt_example :
-  let ls := [LTime [49]; LScalar 49 [33]; LVector [98; 49; 120; 48] [34]; LTime [50]; LScalar 48 [33]; LComment [[49; 33]];
+  let ls := [LIgnored kw_dumpvars; LScalar 48 [33]; LVector [98; 48] [34]; LIgnored kw_end;       (* initial values at the implicit time 0 *)
+             LTime [49]; LScalar 49 [33]; LVector [98; 49; 120; 48] [34]; LTime [50]; LScalar 48 [33]; LComment [[49; 33]];
              LTime [53]; LVector [98; 49; 49; 49] [34]; LTime [55]; LScalar 120 [33]; LVector [98; 122] [34]] in
   let lk : id_lookup := Some [([33], 0%nat); ([34], 1%nat)] in
   let tpes := [EncBits 1; EncBits 3] in
-  Forall line_ok ls /\ starts_with_time ls /\
-  determine_thread_chunks (length (body ls)) 3 7 = Ok [(0, 20); (20, 20); (40, 20)]%nat /\
+  Forall line_ok ls /\
+  determine_thread_chunks (length (body ls)) 4 7 = Ok [(0, 21); (21, 21); (42, 21); (63, 21)]%nat /\
   (exists ops, ops_of lk true false (evs ls) = Some ops /\ StronglySorted N.lt (times_of ops) /\
                N.of_nat (count_vcd 1 ops) * (10 + 3) < 4294967264) /\
   exists b_st b_mt t,
     read_values_st (fun _ => None) (fun d => d) 2 true tpes lk (body ls) = Ok (b_st, t) /\
-    read_values_mt (fun _ => None) (fun d => d) 2 true tpes lk (body ls) 3 7 = Ok (b_mt, t) /\
-    length b_st = 2%nat /\ length b_mt = 3%nat /\
+    read_values_mt (fun _ => None) (fun d => d) 2 true tpes lk (body ls) 4 7 = Ok (b_mt, t) /\
+    b_st <> b_mt /\
     (do s <- load_signal (fun d _ => Some d) b_st 1 (EncBits 3); observe_signal s)
-    = Ok [(0, KFour, [49; 120; 48]); (2, KBinary, [49; 49; 49]); (3, KFour, [122; 122; 122])] /\
+    = Ok [(0, KBinary, [48; 48; 48]); (1, KFour, [49; 120; 48]); (3, KBinary, [49; 49; 49]); (4, KFour, [122; 122; 122])] /\
     (do s <- load_signal (fun d _ => Some d) b_mt 1 (EncBits 3); observe_signal s)
-    = Ok [(0, KFour, [49; 120; 48]); (2, KBinary, [49; 49; 49]); (3, KFour, [122; 122; 122])].
+    = Ok [(0, KBinary, [48; 48; 48]); (1, KFour, [49; 120; 48]); (3, KBinary, [49; 49; 49]); (4, KFour, [122; 122; 122])].
 Proof.
   cbn zeta.
   assert (Hw : forall w, forallb (fun b => negb (is_white_space b)) w = true -> no_ws w).
@@ -688,10 +714,11 @@ Proof.
   { repeat match goal with |- Forall line_ok (_ :: _) => apply Forall_cons | |- Forall line_ok [] => apply Forall_nil end; cbn [line_ok];
       try (split; [now apply Hw|eexists; vm_compute; reflexivity]);
       try (split; [reflexivity|split; [discriminate|now apply Hw]]);
-      try (split; [eexists; eexists; split; [reflexivity|split; [discriminate|reflexivity]]|]; split; [now apply Hw|split; [discriminate|now apply Hw]]).
+      try (split; [eexists; eexists; split; [reflexivity|split; [discriminate|reflexivity]]|]; split; [now apply Hw|split; [discriminate|now apply Hw]]);
+      try (left; reflexivity); try (right; left; reflexivity).
     apply Forall_cons; [|apply Forall_nil]. unfold okw. split; [discriminate|split; [now apply Hw|reflexivity]]. }
-  split; [reflexivity|]. split; [vm_compute; reflexivity|]. split.
+  split; [vm_compute; reflexivity|]. split.
   { eexists. split; [vm_compute; reflexivity|]. split; [|vm_compute; reflexivity].
     vm_compute. repeat constructor. }
-  do 3 eexists. vm_compute. repeat split; reflexivity.
+  do 3 eexists. vm_compute. repeat split; try reflexivity. discriminate.
 Qed.
